@@ -51,6 +51,11 @@ def _preimport():
 
 
 def _model_values(model, inputs):
+    from symx.solve import model_values
+    return model_values(model, inputs)
+
+
+def _model_values_old(model, inputs):
     import z3
     vals = {}
     for name, var in inputs.items():
@@ -137,22 +142,16 @@ def run_job(spec):
                     out['unsat'] += 1
                     continue
                 nontrivial = True
-                def extract(m, gname=gname, kregion=kregion):
-                    rec = dict(prop=spec['prop'], harness=spec['harness'], params=spec['params'],
-                               goal=gname, values=_model_values(m, ctx.inputs),
-                               decisions=eng.decision_string(), regions=[], known_region=kregion)
-                    for rn, rt in ctx.regions.items():
-                        try:
-                            if z3.is_true(m.eval(rt, model_completion=True)):
-                                rec['regions'].append(rn)
-                        except Exception:
-                            pass
-                    return rec
                 _t0 = time.time()
-                r, rec = solve.prove_isolated(cons, gterm, spec.get('query_timeout_s', 20), extract, ctx.hints,
-                                                 key=(spec['harness'], gname.split('[')[0]))
+                r, info = solve.prove_isolated(cons, gterm, spec.get('query_timeout_s', 20), ctx.inputs, ctx.regions,
+                                               ctx.hints, key=(spec['harness'], gname.split('[')[0]))
+                rec = None
+                if r == 'sat':
+                    rec = dict(prop=spec['prop'], harness=spec['harness'], params=spec['params'], goal=gname,
+                               values=info['values'], decisions=eng.decision_string(), regions=info['regions'],
+                               known_region=kregion, via=info.get('via', 'exact'))
                 if os.environ.get('SYMX_DEBUG'):
-                    print('   goal %-40s %-8s %.2fs' % (gname, r, time.time() - _t0), flush=True)
+                    print('   goal %-40s %-8s %.2fs path=%s size=%d' % (gname, r, time.time() - _t0, eng.decision_string(), len(str(gs))), flush=True)
                 if r == 'unsat':
                     out['unsat'] += 1
                     nx += 1
@@ -370,7 +369,7 @@ def match_known(known, rec):
         if not fnmatch.fnmatch(rec['goal'], f['goal']):
             continue
         reg = f.get('region', 'all')
-        if reg == 'all' or reg in rec.get('regions', []):
+        if reg == 'all' or reg in rec.get('regions', []) or '*' in rec.get('regions', []):
             return f
     return None
 
@@ -513,8 +512,8 @@ def main(argv=None):
                         conc['failed_examples'].append(rr['error'][:200])
                     elif rr.get('reproduced') and all(
                             match_known(known, dict(prop=prop, harness=json.load(open(p))['harness'], goal=g,
-                                                    regions=[])) is not None for g in rr.get('failed_goals', [])):
-                        conc['held'] += 1          # only goals recorded as known findings (region 'all') fail
+                                                    regions=['*'])) is not None for g in rr.get('failed_goals', [])):
+                        conc['held'] += 1          # only goals recorded as known findings fail at this witness
                     elif rr.get('reproduced'):
                         conc['failed'] += 1
                         conc['failed_examples'].append(str(rr.get('failed_goals'))[:200])
